@@ -126,6 +126,19 @@ def main(tier, replay=None):
             R.count("cli-pipe-%d-%s" % (n, pieces), True)
             if not out or out[0] != want:
                 viol.append(dict(cli="producer writing %s bytes | dud checksum" % pieces, implementation=out[:1], blake3_of_bytes=want))
+    # files whose reported size says nothing about what a read returns (procfs: st_size 0, content not empty)
+    for path in ("/proc/version", "/proc/filesystems", "/proc/sys/kernel/ostype"):
+        try:
+            data = open(path, "rb").read()
+        except OSError:
+            continue
+        want = run_lines([drv, "b3hex"], [data.hex() or "-"])[0]
+        p = subprocess.run([dud, "checksum", path], env=env, stdout=subprocess.PIPE, stderr=subprocess.PIPE)
+        out = ROOT_WARNING.sub(b"", p.stdout).decode().split()
+        R.count("cli-procfs-%s" % path, True)
+        if not out or out[0] != want:
+            viol.append(dict(cli="dud checksum %s (st_size %d, %d bytes when read)" % (path, os.stat(path).st_size, len(data)), implementation=out[:1],
+                             blake3_of_bytes=want))
     for v in viol[:6]:
         R.violation(dict(kind="property-violated-on-implementation", **v))
     if not viol:
